@@ -16,6 +16,14 @@ CHECKS = {
         "Trusts the harness grammar G; upper-case variants and zero-padded numbers with a direction letter are outside the generated domain.",
         "DESIGN.md section 4 C12",
     ),
+    "C02": (
+        "exhaustive enumeration of chains x depth configurations + Hypothesis for long chains, exact rectangle-geometry oracle",
+        "Every aliquot chain up to length 4 (quick) / 5 (thorough) x all 30 depth configurations is enumerated and the returned pieces "
+        "are checked against exact Fraction rectangles computed from the original chain: containment, pairwise disjointness, area sum, "
+        "minimum depth, maximum depth, break_halves. Longer chains are sampled.",
+        "Trusts the harness geometry model (per-axis truncation for qq_depth_max); spelling variation is C07's job.",
+        "DESIGN.md section 4 C02",
+    ),
 }
 
 NOT_BUILT = {}
